@@ -944,6 +944,7 @@ fn execute_run(run: &Run, k: u64, sc: &Scratch, small: bool) {
 	let start_head = node.chain.head().expect("head");
 	verif_hooks::events_enable(true);
 	let sched_before = verif_hooks::sched_stats();
+	let _ = verif_hooks::resize_stats_take();
 	verif_hooks::sched_arm(sched_seed | 1);
 	let t_conc = Instant::now();
 	tick(0, OP_JOINING);
@@ -979,6 +980,15 @@ fn execute_run(run: &Run, k: u64, sc: &Scratch, small: bool) {
 	let conc_ms = t_conc.elapsed().as_millis() as u64;
 	verif_hooks::sched_arm(0);
 	let sched_after = verif_hooks::sched_stats();
+	// hook H9: no transaction of an environment may be live when its memory map is enlarged
+	let (h9_resizes, h9_live) = verif_hooks::resize_stats_take();
+	run.count("db.enlargements_seen_by_the_live_transaction_monitor", h9_resizes);
+	for (env, n) in h9_live.iter().take(3) {
+		ctx.viol(
+			"map_enlarged_with_live_transactions",
+			format!("the memory map of {} was enlarged while {} transaction(s) of that environment were live in this process", env, n),
+		);
+	}
 	let mut st = std::mem::take(&mut *ctx.stats.lock().unwrap());
 	let hit_deadline = Instant::now() > ctx.deadline;
 	if hit_deadline {
